@@ -312,6 +312,47 @@ def clause7(P, res):
         res.violated(rid, "destroyer-sites", f"expected >= 6 functions that destroy/move out MaybeUninit payload cells, found {n}")
 
 
+def clause8(P, res):
+    from rules import cachelib
+    rid = "C09-8"
+    res.rule(rid, "oneshot: whoever wins the SENT -> TAKEN transition takes the value: on every path from the success edge of compare_exchange(STATE_SENT, STATE_TAKEN) to the "
+                  "function's exit the value slot is emptied (Option::take on the slot) — after TAKEN neither the shared state's Drop nor the last sender frees the slot "
+                  "(they act on SENT only), so a winner that backs off (a try_lock that fails) leaks the value")
+    n = 0
+    for b in P.bodies.values():
+        if not b.id.startswith("fibre::oneshot::") or "::tests::" in b.id:
+            continue
+        for e in b.calls():
+            if not (e.is_atomic and e.method in ("compare_exchange", "compare_exchange_weak") and len(e.args) >= 3):
+                continue
+            cs = [str((b.const_of_operand(a) or {}).get("path", "")) for a in e.args[1:3]]
+            if not (cs[0].endswith("STATE_SENT") and cs[1].endswith("STATE_TAKEN")):
+                continue
+            n += 1
+            key = f"{b.id}:SENT->TAKEN"
+            oks = cachelib.result_switch_edges(b, e, "Ok")
+            for s2 in b.calls():
+                if s2.method in ("is_ok", "is_err") and s2.args and b.producer_call(s2.args[0]) is e:
+                    for blk in range(len(b.blocks)):
+                        if not b.is_cleanup(blk) and b.term(blk)["k"] == "switch":
+                            ss = b.switch_source(blk)
+                            if ss and ss.get("kind") == "call" and ss["event"] is s2:
+                                lab = ("true" if s2.method == "is_ok" else "false")
+                                if ss.get("neg"):
+                                    lab = "false" if lab == "true" else "true"
+                                oks += b.edges_by_label(blk).get(lab, [])
+            takes = [t for t in b.calls() if t.method in ("take", "assume_init_read", "assume_init_drop", "assume_init") and ("Option" in t.callee or "MaybeUninit" in t.callee)]
+            if not oks:
+                res.unclassified(rid, key, "the outcome of the SENT->TAKEN compare_exchange is not branched on in a form the rule recognises", where=e.loc)
+            elif takes and cachelib.all_paths_pass(b, [(t, 0) for _, t in oks], [t.pos for t in takes]):
+                res.holds(rid, key, f"the winner empties the slot on every path ({takes[0].loc})", where=e.loc)
+            else:
+                res.violated(rid, key, f"a path from the success edge of the SENT->TAKEN transition at {e.loc} reaches the exit without taking the value out of the slot: nobody "
+                             "else will (the other destroyers act on SENT only) — the value is leaked", where=e.loc)
+    if n < 2:
+        res.violated(rid, "taken-sites", f"expected >= 2 SENT->TAKEN transitions in the oneshot channel, found {n}")
+
+
 def run(P, ctx):
     res = Result("C09")
     res.extra["explanation"] = "Ownership shapes: storage owners drain on drop, forget-conversions move each owning field once, recovered items re-enter."
@@ -321,5 +362,6 @@ def run(P, ctx):
     clause5(P, res)
     clause6(P, res, owners or [])
     clause7(P, res)
+    clause8(P, res)
     res.notes.append("take-once cell discipline (MaybeUninit reads guarded by the publishing state) is decided under C01-3 / C07-2 and not repeated here")
     return res
